@@ -26,7 +26,7 @@ HERE = os.path.dirname(os.path.dirname(os.path.abspath(__file__)))
 def _dig(args):
     prop, seed, config, tier = args
     tr = engine.gen(prop, seed, config, tier)
-    res = engine.run(tr)
+    res = engine.run_isolated(tr)
     return (prop, seed, config, res["digest"], len(res["violations"]))
 
 
